@@ -508,6 +508,8 @@ func (fc *FnCtx) wfInto(t types.Type, L []string, facts *[]string) {
 	case *types.Interface:
 		// nil interface has zero payload
 		*facts = append(*facts, implies(eq(L[0], bvLit(0, 16)), eq(L[1], bvLit(0, 64))))
+		// data invariant: no nil in-repo pointer inside an interface
+		*facts = append(*facts, implies(fc.isRepoPtrTag(L[0]), not(eq(L[1], bvLit(0, 64)))))
 	case *types.Pointer:
 		if !ptrIsThin(u.Elem()) {
 			// a nil fat pointer is all zero
@@ -1043,4 +1045,18 @@ func (fc *FnCtx) edgeCond(p, s *ssa.BasicBlock) string {
 		return end.guard
 	}
 	return "false"
+}
+
+func (fc *FnCtx) isRepoPtrTag(tag string) string {
+	if _, ok := fc.declared["fun!isrepoptr"]; !ok {
+		fc.declared["fun!isrepoptr"] = "x"
+		var alts []string
+		for _, t := range fc.eng.knownTypes() {
+			if fc.eng.isRepoPtrType(t) {
+				alts = append(alts, eq("t", fc.tagOf(t)))
+			}
+		}
+		fc.decls = append(fc.decls, fmt.Sprintf("(define-fun isrepoptr ((t %s)) Bool %s)", SortTag, or(alts...)))
+	}
+	return app("isrepoptr", tag)
 }
